@@ -107,8 +107,12 @@ pub fn gen_case(rng: &mut Rng) -> (String, &'static str) {
         (char_soup(rng, 40), "char-soup")
     } else if fam < 92 {
         (numeric_edge(rng), "numeric-edge")
-    } else if fam < 96 {
+    } else if fam < 94 {
         (FIXED[rng.below(FIXED.len())].to_string(), "malformed-quoted-or-numeric")
+    } else if fam < 96 {
+        (refimpl::sentence::long_token_case(rng), "long-token")
+    } else if fam < 97 {
+        (refimpl::sentence::lookalike_case(rng), "unicode-lookalike")
     } else {
         // a moderately deep member of a depth family (shallow enough to be in scope)
         let f = DEPTH_FAMILIES[rng.below(DEPTH_FAMILIES.len())];
